@@ -456,4 +456,13 @@ def c15_8(c: Ctx) -> None:
     c01_3(c)
 
 
+@ob('C15.11', 'ORD', 'a rejected dispatch leaves nothing behind that keeps the bus from going idle (same obligation as C14.2): the history insertion follows a successful '
+    'put_nowait and every handler that catches the rejection re-raises — an event recorded in the history but never queued stays pending forever (pending entries are evicted '
+    'last), the idle predicate is never true again and wait_until_idle() never returns although every accepted event was handled')
+def c15_11(c: Ctx) -> None:
+    from .c14 import c14_2
+
+    c14_2(c)
+
+
 OBLIGATIONS = ob.obs
